@@ -21,7 +21,7 @@ CLAUSES = {
 KNOWN_PROP = {'KF-C13-flag-read-before-arm': 'C13', 'KF-C13-notify-before-unlock': 'C13'}
 
 
-def explore(wd, shards, extra=None):
+def explore(wd, shards, extra=None, cmd='nucleo-sched'):
     """one child process per shard (a panic in the worker pool aborts the process: the partial trace with an
     abort event is the recorded outcome, the shard is resumed after the aborted run)"""
     tdir = os.path.join(wd, 'trace')
@@ -30,7 +30,7 @@ def explore(wd, shards, extra=None):
     def one(k):
         frm, total, aborted = 0, None, 0
         for _ in range(60):
-            p = nvh(['nucleo-sched', '--tier', tier(), '--seed', seed(), '--shards', shards, '--shard', k, '--out', tdir, '--from', frm] + (extra or []),
+            p = nvh([cmd, '--tier', tier(), '--seed', seed(), '--shards', shards, '--shard', k, '--out', tdir, '--from', frm] + (extra or []),
                     timeout=7200, check=False)
             last = p.stdout.strip().splitlines()[-1] if p.stdout.strip() else '{}'
             try:
@@ -55,7 +55,7 @@ def explore(wd, shards, extra=None):
                 aborted += 1
                 frm = c['run'] + 1
                 continue
-            die_tool('nucleo-sched shard %d failed rc=%d: %s %s' % (k, p.returncode, p.stdout[-500:], p.stderr[-1500:]))
+            die_tool('%s shard %d failed rc=%d: %s %s' % (cmd, k, p.returncode, p.stdout[-500:], p.stderr[-1500:]))
         die_tool('nucleo-sched shard %d: too many aborted runs' % k)
 
     with concurrent.futures.ThreadPoolExecutor(max_workers=shards) as ex:
